@@ -259,8 +259,13 @@ def check_pair(t, cols, names, s1, s2, config, out):
             idx = [int(i) % n if n else int(i) for i in t.rows.indices[s1, s2]]
             if [cols["s"][i] for i in idx] != exp["s"]:
                 what = f"rows.indices[{s1!r}, {s2!r}] = {idx!r} does not describe the rows of rows[...] (s={exp['s']!r})"
+            else:
+                msk = t.rows.mask[s1, s2]
+                marked = [cols["s"][i] for i, bit in enumerate(msk) if bit]
+                if len(msk) != n or marked != sorted(set(exp["s"])):
+                    what = f"rows.mask[{s1!r}, {s2!r}] marks the rows with s={marked!r}; rows[...] selects s={exp['s']!r}"
     except Exception as e:  # noqa
-        what = f"rows[{s1!r}, {s2!r}] / rows[..].rows[..] raised {type(e).__name__}: {e}; expected s={exp['s']!r}"
+        what = f"rows[{s1!r}, {s2!r}] / rows[..].rows[..] / rows.mask[..] raised {type(e).__name__}: {e}; expected s={exp['s']!r}"
     if what and len(out["issues"]) < 40:
         out["issues"].append(issue(names, (s1, s2), what, config))
     if exp["s"]:
